@@ -191,6 +191,10 @@ func (w *opsWorld) apply(op string) (r opResult) {
 			ea.Debt++ // differs from the plain variant in this single field only
 			ea.Signature = glow.Sign(refAuthSigningBytes(ea), w.signerPriv(parts[4]))
 		}
+		if len(parts) > 5 && parts[5] == "resig" {
+			// same content under a second valid signature (another nonce): not the identical authorization
+			ea.Signature = altSign(refAuthSigningBytes(ea), w.signerPriv(parts[4]), 1)
+		}
 		if len(parts) > 5 && parts[5] == "flip" {
 			ea.Signature[17] ^= 0x04
 		}
@@ -269,6 +273,9 @@ func (w *opsWorld) apply(op string) (r opResult) {
 		as.GCAAuthorization = glow.Sign(refServerSigningBytes(as), w.signerPriv(parts[4]))
 		if len(parts) > 6 && parts[6] == "stale" {
 			as.Banned = !as.Banned // altered after signing: carries the genuine signature of the unaltered entry
+		}
+		if len(parts) > 6 && parts[6] == "staletail" {
+			as.Location = as.Location[:len(as.Location)-1] + "b" // last byte of the location altered after signing
 		}
 		if len(parts) > 6 && parts[6] == "staleport" {
 			as.UdpPort += 7
